@@ -351,6 +351,13 @@ def _gen_atoms(rng, tok, nlines, allow_cref):
         if rng.random() < 0.5:
           atoms.append(_text(" "))
           atoms.append(_text(tok()))
+  if rng.random() < 0.12:
+    # literal no-break / ideographic spaces at the very start and end of the payload (indentation, CJK): part of the text
+    u = rng.choice(["\u00a0", "\u00a0\u00a0", "\u3000"])
+    if rng.random() < 0.7:
+      atoms.insert(0, _text(u))
+    if rng.random() < 0.7:
+      atoms.append(_text(u))
   return atoms
 
 
